@@ -75,7 +75,12 @@ def validated_python_name(name, value):
 
 
 def generated_tokens(text):
-    toky = list(tokenize.generate_tokens(_compat.token_io_readline(text)))
+    try:
+        toky = list(tokenize.generate_tokens(_compat.token_io_readline(text)))
+    except UnicodeError as error:
+        # HACK: Python 3.12 fails to decode its own intermediate data for text containing a carriage
+        # return followed by a non ASCII character.
+        raise tokenize.TokenError("cannot process carriage return followed by non ASCII character: %s" % error)
     if len(toky) >= 2 and is_newline_token(toky[-2]) and is_eof_token(toky[-1]):
         # HACK: Remove newline that generated_tokens() adds starting with Python 3.x but not before.
         del toky[-2]
